@@ -11,6 +11,7 @@ import GMGDriver.ParDrv
 import GMGDriver.OptionsDrv
 import GMGDriver.InputFnDrv
 import GMGDriver.FootDrv
+import GMGDriver.OwnerDrv
 
 def main (args : List String) : IO UInt32 := do
   match args with
@@ -30,6 +31,7 @@ def main (args : List String) : IO UInt32 := do
   | ["options"] => OptionsDrv.main
   | ["inputfn"] => InputFnDrv.main
   | ["foot"] => FootDrv.main
+  | ["owner", a, b] => OwnerDrv.main a.toNat! b.toNat!
   | ["sched", a, b] => SchedDrv.main a.toNat! b.toNat!
   | _ => do
     IO.eprintln "usage: gmgdriver <grid|tridiag|lu|...>  (reads the harness line protocol on stdin)"
